@@ -58,6 +58,10 @@ type c18Scenario struct {
 	// declaration lines, then changed to the final text; "edit-sib" = the same for
 	// the sibling file, after which the current file is analysed again
 	Via string `json:"via,omitempty"`
+	// Outside: the workspace's root journal does not include the current file (it
+	// includes the sibling only); a workspace update on open/change then leaves
+	// the workspace, and the caches it hands out, untouched
+	Outside bool `json:"current_file_outside_the_root_tree,omitempty"`
 }
 
 // c18WithoutDeclarations replaces the declarations by declarations of other names (same line count).
@@ -180,7 +184,7 @@ func (sc c18Scenario) files() (cur string, files map[string]string, expect []c18
 	}
 	cur = b.String()
 	files = map[string]string{
-		"main.journal": "include cur.journal\ninclude sib.journal\n",
+		"main.journal": map[bool]string{false: "include cur.journal\ninclude sib.journal\n", true: "include sib.journal\n"}[sc.Outside],
 		"cur.journal":  cur,
 		"inc.journal":  sc.declText("inc") + "\n2001-02-01 inc\n    expenses:i  1 EUR\n    assets:i  -1 EUR\n",
 		"sib.journal":  sc.declText("sib") + "\n2001-03-01 sib\n    expenses:s  1 EUR\n    assets:s  -1 EUR\n",
@@ -202,6 +206,9 @@ func (sc c18Scenario) features() string {
 		before += ", declarations added to the current file by an edit"
 	case "edit-sib":
 		before += ", declarations added to the sibling file by an edit"
+	}
+	if sc.Outside {
+		before += ", current file outside the root journal's tree"
 	}
 	return fmt.Sprintf("accounts declared in %s, commodities declared in %s, %s%s", sc.AccDecl, sc.CommDecl, root, before)
 }
@@ -418,6 +425,12 @@ func checkC18(c *core.Ctx) {
 								// the same scenario in a server that analysed another document first
 								sc.Before = true
 								c18Run(c, dir, sc)
+								if root {
+									// ... and when neither of the two is part of the root's tree
+									o := sc
+									o.Outside = true
+									c18Run(c, dir, o)
+								}
 							}
 							if sampled < 2 && ad == "inc" && cd == "sib" && root && mask == 7 {
 								sampled++
